@@ -143,6 +143,9 @@ def check_resolution(ctx, w):
            len(hit) == 1 and expr.nfs(hit[0], env) == 'tuple(verneed,vernaux)', got=[expr.nfs(h, env) for h in hit])
     others = [expr.nfs(r, env) for c, r, p in rp if not any(expr.cond_str(t, env) == expr.spec_cond('vna_other == index') and pol for t, pol in c)]
     ctx.ob('W-VER', f.construct, 'None when no auxiliary carries the index', set(others) == {'None'}, got=sorted(set(others)))
+    allc = sorted(set(expr.cond_str(t, env) for c, r, p in rp for t, pol in c))
+    ctx.ob('W-VER', f.construct, 'the only test is vna_other == index', allc == [expr.spec_cond('vna_other == index')], got=allc,
+           msg='any further condition on the index makes the lookup miss an encoded entry (indexes need not be dense or ordered)')
     loops = sorted([n for n in ast.walk(f.node) if isinstance(n, ast.For)], key=lambda n: n.lineno)
     ok = len(loops) == 2 and expr.nfs(loops[0].iter, env) == 'iter_versions(self)' and isinstance(loops[0].target, ast.Tuple) and \
         expr.nfs(loops[1].iter, env) == loops[0].target.elts[1].id
@@ -155,6 +158,11 @@ def check_resolution(ctx, w):
            got=[expr.nfs(h, env) for h in hit])
     others = [expr.nfs(r, env) for c, r, p in rp if not any(expr.cond_str(t, env) == expr.spec_cond('vd_ndx == index') and pol for t, pol in c)]
     ctx.ob('W-VER', f.construct, 'None when no definition carries the index', set(others) == {'None'}, got=sorted(set(others)))
+    allc = sorted(set(expr.cond_str(t, env) for c, r, p in rp for t, pol in c))
+    ctx.ob('W-VER', f.construct, 'the only test is vd_ndx == index', allc == [expr.spec_cond('vd_ndx == index')], got=allc,
+           msg='any further condition on the index makes the lookup miss an encoded entry (indexes need not be dense or ordered)')
+    dl = [n for n in ast.walk(f.node) if isinstance(n, ast.For)]
+    ctx.ob('W-VER', f.construct, 'searches every definition', len(dl) == 1 and expr.nfs(dl[0].iter, env) == 'iter_versions(self)')
     f = w.model.func(GV, 'GNUVerNeedSection.iter_versions')
     env = expr.FEnv(f.node)
     tr = expr.assign_trace(f.node, env)
